@@ -1,1 +1,98 @@
-From PyecoreV Require Import Model.Kernel.
+(* C05 — observers can mirror the model from notifications alone.
+   Statements only; proofs in Proofs/C05Proofs.v over Model/Kernel.v
+   (valuecontainer.py + ENotifer.notify, statement by statement).
+   Proved (the attribute half, every data type, every multiplicity): each
+   accepted operation on a non-reference feature changes exactly the addressed
+   slot and appends exactly one notification whose notifier, feature, kind
+   and old/new payload describe that change — SET/UNSET carry the previous
+   and the new value, ADD the inserted element, REMOVE the removed one,
+   REMOVE_MANY the whole previous content, ADD_MANY the argument — and an
+   empty clear reports nothing.  An observer applying them therefore holds
+   the slot's content (as a multiset; positions are not reported).
+   PARTIAL: for references the same shape holds per touched slot but the
+   composition with the implicit opposite/container updates is not yet a
+   theorem; it is carried by the correspondence on the notification log and
+   the mirror observer of harness/props/c05.py.  Known finding
+   F-C05-elist-item-write (item/slice writes on list-based collections) is
+   outside these theorems: the model reproduces it. *)
+From Coq Require Import ZArith List Bool Arith.
+From PyecoreV Require Import Lib.PyBase Lib.PyList Model.Kernel Proofs.KernelFacts Proofs.C05Proofs.
+Import ListNotations.
+
+Theorem C05_attribute_set_reported_partial :
+  forall m f, f_isref (fd m f) = false ->
+  forall s x v, check_single m f v = true ->
+    let s' := snd (set_full m s (x, f) v) in
+    vals s' = upd (vals s) (x, f) [v] /\
+    log s' = mk m (set_vals s (x, f) [v]) x f (match v with VNone => KUnset | _ => KSet end)
+                (POne (single s (x, f))) (POne v) :: log s /\
+    cont s' = cont s /\ rcont s' = rcont s /\ eres s' = eres s.
+Proof. exact attr_set. Qed.
+Print Assumptions C05_attribute_set_reported_partial.
+
+Theorem C05_attribute_add_reported_partial :
+  forall m f, f_isref (fd m f) = false ->
+  forall s x pos v, check_elem m f v = true ->
+    let s' := snd (coll_add_full m s (x, f) pos v) in
+    let l' := match pos with
+              | Some i => raw_insert (f_unique (fd m f)) i v (vals s (x, f))
+              | None => raw_append (f_unique (fd m f)) v (vals s (x, f)) end in
+    vals s' = upd (vals s) (x, f) l' /\
+    log s' = mk m (set_vals s (x, f) l') x f KAdd (POne VNone) (POne v) :: log s.
+Proof. exact attr_add. Qed.
+Print Assumptions C05_attribute_add_reported_partial.
+
+Theorem C05_attribute_remove_reported_partial :
+  forall m f, f_isref (fd m f) = false ->
+  forall s x v, vmem v (vals s (x, f)) = true ->
+    let s' := snd (coll_remove_top m s (x, f) v) in
+    let l' := raw_remove v (vals s (x, f)) in
+    vals s' = upd (vals s) (x, f) l' /\
+    log s' = mk m (set_vals s (x, f) l') x f KRemove (POne v) (POne VNone) :: log s.
+Proof. exact attr_remove. Qed.
+Print Assumptions C05_attribute_remove_reported_partial.
+
+Theorem C05_attribute_pop_reported_partial :
+  forall m f, f_isref (fd m f) = false ->
+  forall s x i v l', py_pop i (vals s (x, f)) = Some (v, l') ->
+    let r := coll_pop_full m s (x, f) i in
+    vals (snd (fst r)) = upd (vals s) (x, f) l' /\
+    log (snd (fst r)) = mk m (set_vals s (x, f) l') x f KRemove (POne v) (POne VNone) :: log s /\
+    snd r = Some v /\ fst (fst r) = None.
+Proof. exact attr_pop. Qed.
+Print Assumptions C05_attribute_pop_reported_partial.
+
+Theorem C05_attribute_clear_reported_partial :
+  forall m f, f_isref (fd m f) = false ->
+  forall s x,
+    let s' := coll_clear_full m s (x, f) in
+    match vals s (x, f) with
+    | [] => s' = s
+    | l => vals s' = upd (vals s) (x, f) [] /\
+           log s' = mk m (set_vals s (x, f) []) x f KRemoveMany (PMany l) (PMany []) :: log s
+    end.
+Proof. exact attr_clear. Qed.
+Print Assumptions C05_attribute_clear_reported_partial.
+
+Theorem C05_attribute_extend_reported_partial :
+  forall m f, f_isref (fd m f) = false ->
+  forall s x vs, forallb (check_elem m f) vs = true ->
+    let s' := snd (coll_extend_full m s (x, f) vs) in
+    let l' := if f_unique (fd m f)
+              then fold_left (fun acc v => raw_append true v acc) vs (vals s (x, f))
+              else vals s (x, f) ++ vs in
+    vals s' (x, f) = l' /\
+    (forall k, k <> (x, f) -> vals s' k = vals s k) /\
+    exists s0, log s' = mk m s0 x f KAddMany (POne VNone) (PMany vs) :: log s.
+Proof. exact attr_extend. Qed.
+Print Assumptions C05_attribute_extend_reported_partial.
+
+Definition ex_mm : mm :=
+  {| feats := [ {| f_owner := 0; f_isref := false; f_many := true; f_unique := false; f_cont := false;
+                   f_opp := None; f_type := TInt; f_default := VNone |} ];
+     conf := [(0, 0)]; ocls := [0]; enames := []; nres := 0 |}.
+
+Example C05_witness :
+  let s := fold_left (next ex_mm) [OAppend 0 0 (VInt 7); OAppend 0 0 (VInt 7); OPop 0 0 (-1)] (init_state ex_mm) in
+  vals s (0, 0) = [VInt 7] /\ map n_kind (log s) = [KRemove; KAdd; KAdd].
+Proof. vm_compute. split; reflexivity. Qed.
